@@ -47,6 +47,7 @@ def act (ss : Session) (a : JAct) (showPa : Bool := true) : Option (String × Se
 def op (ss : Session) (toks : List String) : Option (String × Session) :=
   match toks with
   | ["item", id, xs] => do act ss (.item (← parseNat? id) (← parseList? xs) ss.now)
+  | ["itemat", e, id, xs] => do act ss (.item (← parseNat? id) (← parseList? xs) (ss.st.passAt + (← parseNat? e)))
   | ["tick", e] => do act ss (.tick (ss.st.passAt + (← parseNat? e)))
   | ["close"] => act ss (.close ss.now)
   | ["release"] => act ss (.release ss.now)
